@@ -948,7 +948,9 @@ func makeHTTPTypeRecursive(att *expr.AttributeExpr, seen map[string]struct{}) *e
 					att.Validation.Merge(v)
 				}
 			}
-			att.DefaultValue = dt.Attribute().DefaultValue
+			if att.DefaultValue == nil {
+				att.DefaultValue = dt.Attribute().DefaultValue
+			}
 		}
 		if _, ok := seen[dt.ID()]; ok {
 			return att
